@@ -554,13 +554,21 @@ pub fn run(tier: Tier) -> i32 {
     rep.cover("timestamps", json!(times(tier).len()));
     let (systems, depths) = frame_systems();
     explore_all(&mut rep, &systems, |s| tier.pick(if s.name.contains("was-") { depths[&s.name].0 } else { depths[&s.name].0.saturating_sub(1) }, depths[&s.name].1), tier.pick(8.0, 300.0));
+    let sweep = sweep_systems(tier == Tier::Quick);
+    explore_more(&mut rep, "sweep", &sweep, tier.pick(3, 4), tier.pick(2.0, 30.0));
     rep.assume("Pdelay_Resp/_Follow_Up carry times to the nanosecond (sub-ns part not required); Delay_Resp exactness is judged where receive-time remainder + request correction is representable, otherwise the correction must not wrap negative");
     rep.finish()
 }
 
+/// the configuration sweep under the frame monitor (domain/sdoId as the tokens say)
+fn sweep_systems(reduced: bool) -> Vec<WorldSys<'static, FrameMon>> {
+    build("C10", &FMON, crate::c08::sweep_defs(reduced), false).into_iter().map(|(s, _)| s).collect()
+}
+
 pub fn replay(r: &serde_json::Value) {
     if r.get("world").is_some() {
-        let (systems, _) = frame_systems();
+        let (mut systems, _) = frame_systems();
+        systems.extend(sweep_systems(false));
         replay_world(&systems, r);
     } else {
         println!("lattice case {r}: rerun ./check C10 quick (each case is re-derived from the lattice)");
